@@ -80,7 +80,10 @@ fn main() {
 
     // the reference codec is the trusted base of most oracles: refuse to judge anything if it
     // does not pass its own self test (exit 2 = inconclusive, never a VIOLATION)
-    match refcodec::selftest() {
+    // (under an interpreter the self test alone takes a quarter of an hour; the sanitizer stage is
+    // started by ./check right after a native run of the same binary source has passed it)
+    let skip_selftest = std::env::var("VERIF_SANITIZER").as_deref() == Ok("miri") && prop != "selftest";
+    match if skip_selftest { Ok(0) } else { refcodec::selftest() } {
         Ok(n) => {
             if prop == "selftest" {
                 println!("reference codec self test: {n} checks passed");
